@@ -24,7 +24,6 @@ MODULES = {
     "iroh_dns__pkarr": ("iroh-dns", "pkarr::verif_kani"),
     "iroh__mapped_addrs": ("iroh", "socket::mapped_addrs::verif_kani"),
     "iroh__ip": ("iroh", "socket::transports::ip::verif_kani"),
-    "iroh__endpoint": ("iroh", "endpoint::verif_kani"),
     "iroh__hooks": ("iroh", "endpoint::hooks::verif_kani"),
 }
 
